@@ -79,6 +79,9 @@ static const echs_wday_t __jan01_28y_wday[] = {
 #undef S
 
 /* we can enumerate the cross product of time components */
+/* the year slot of an instant holds 12 bits, stop unrolling before it wraps */
+#define MAX_YEAR	(4095U)
+
 struct enum_s {
 	size_t nel;
 	uint8_t nH, nM, nS;
@@ -1023,7 +1026,7 @@ rrul_fill_yly(echs_instant_t *restrict tgt, size_t nti, rrulsp_t rr)
 		echs_shift_bday_p(rr->shift) && !echs_shift_neg_p(rr->shift);
 
 	/* fill up the array the hard way */
-	for (res = 0UL, tries = 64U; res < nti && --tries; y += rr->inter) {
+	for (res = 0UL, tries = 64U; res < nti && --tries && y < MAX_YEAR; y += rr->inter) {
 		bitint383_t cand[3U] = {0U};
 		int yd;
 
@@ -1220,7 +1223,7 @@ rrul_fill_mly(echs_instant_t *restrict tgt, size_t nti, rrulsp_t rr)
 	}
 
 	/* fill up the array the hard way */
-	for (res = 0UL, tries = 64U; res < nti && --tries;
+	for (res = 0UL, tries = 64U; res < nti && --tries && y < MAX_YEAR;
 	     ({
 		     do {
 			     if ((m += rr->inter) > 12) {
@@ -1380,7 +1383,7 @@ rrul_fill_wly(echs_instant_t *restrict tgt, size_t nti, rrulsp_t rr)
 	}
 
 	/* fill up the array the hard way */
-	for (res = 0UL, maxd = echs_scale_ndim(srcsca, y, m); res < nti;
+	for (res = 0UL, maxd = echs_scale_ndim(srcsca, y, m); res < nti && y < MAX_YEAR;
 	     ({
 		     d += rr->inter * 7U;
 		     while (d > maxd) {
@@ -1537,7 +1540,7 @@ rrul_fill_dly(echs_instant_t *restrict tgt, size_t nti, rrulsp_t rr)
 	/* fill up the array the hard way */
 	for (res = 0UL, w = echs_scale_wday(srcsca, y, m, d),
 		     maxd = echs_scale_ndim(srcsca, y, m);
-	     res < nti;
+	     res < nti && y < MAX_YEAR;
 	     ({
 		     d += rr->inter;
 		     w += rr->inter;
@@ -1698,7 +1701,7 @@ rrul_fill_Hly(echs_instant_t *restrict tgt, size_t nti, rrulsp_t rr)
 	/* fill up the array the naive way */
 	for (unsigned int w = ymd_get_wday(y, m, d), yd = ymd_get_yd(y, m, d),
 		     maxd = __get_ndom(y, m), maxy = (y % 4U) ? 365 : 366;
-	     res < nti;
+	     res < nti && y < MAX_YEAR;
 	     ({
 		     if ((H += rr->inter) >= 24U) {
 			     d += H / 24U, w += H / 24U, yd += H / 24U;
@@ -1891,7 +1894,7 @@ rrul_fill_Mly(echs_instant_t *restrict tgt, size_t nti, rrulsp_t rr)
 
 	/* fill up the array the naive way */
 	for (unsigned int w = ymd_get_wday(y, m, d), maxd = __get_ndom(y, m);
-	     res < nti;
+	     res < nti && y < MAX_YEAR;
 	     ({
 		     if ((M += rr->inter) >= 60U) {
 			     H += M / 60U, M %= 60U;
@@ -2085,7 +2088,7 @@ rrul_fill_Sly(echs_instant_t *restrict tgt, size_t nti, rrulsp_t rr)
 
 	/* fill up the array the naive way */
 	for (unsigned int w = ymd_get_wday(y, m, d), maxd = __get_ndom(y, m);
-	     res < nti;
+	     res < nti && y < MAX_YEAR;
 	     ({
 		     if ((S += rr->inter) >= 60U) {
 			     M += S / 60U, S %= 60U;
